@@ -24,9 +24,53 @@ func (p *pkgInfo) src(n ast.Node) string {
 
 func leanStr(s string) string { return strconv.Quote(s) }
 
+// memoFields maps the field names of `type memoizer struct` to canonical names derived from the
+// field's TYPE (and, among fields of one type, its order): _mu, _cond0/_cond1, _iter, _f_<type>_<k>.
+// Renaming or reordering the fields is then not a change of the normalised source.
+func (p *pkgInfo) memoFields() (canon map[string]string, shared map[string]bool) {
+	canon, shared = map[string]string{}, map[string]bool{}
+	for _, f := range p.files {
+		for _, d := range f.Decls {
+			gd, ok := d.(*ast.GenDecl)
+			if !ok || gd.Tok != token.TYPE {
+				continue
+			}
+			for _, sp := range gd.Specs {
+				ts := sp.(*ast.TypeSpec)
+				st, ok := ts.Type.(*ast.StructType)
+				if !ok || ts.Name.Name != "memoizer" {
+					continue
+				}
+				count := map[string]int{}
+				for _, fl := range st.Fields.List {
+					typ := strings.ReplaceAll(p.src(fl.Type), " ", "")
+					for _, n := range fl.Names {
+						var c string
+						switch {
+						case typ == "sync.Mutex":
+							c = "_mu"
+						case typ == "*sync.Cond":
+							c = "_cond" + strconv.Itoa(count[typ])
+						case strings.HasPrefix(typ, "func("):
+							c = "_iter" + strings.Repeat("'", count[typ])
+						default:
+							c = "_f_" + typ + "_" + strconv.Itoa(count[typ])
+							shared[n.Name] = true
+						}
+						count[typ]++
+						canon[n.Name] = c
+					}
+				}
+			}
+		}
+	}
+	return
+}
+
 // alphaSrc prints a function body with receiver, parameters and local variables renamed to
 // canonical names in order of declaration, so that renaming a variable is not a change.
 func (p *pkgInfo) alphaSrc(fd *ast.FuncDecl) string {
+	fieldCanon, _ := p.memoFields()
 	names := map[string]string{}
 	add := func(n, canon string) {
 		if n == "_" || n == "" {
@@ -100,6 +144,10 @@ func (p *pkgInfo) alphaSrc(fd *ast.FuncDecl) string {
 			if c, ok := names[lit]; ok {
 				text = c
 			}
+		} else if tok == token.IDENT && prev == token.PERIOD {
+			if c, ok := fieldCanon[lit]; ok {
+				text = c // a field of the memoizer, named by its role
+			}
 		}
 		out = append(out, text)
 		orig = append(orig, lit)
@@ -109,6 +157,9 @@ func (p *pkgInfo) alphaSrc(fd *ast.FuncDecl) string {
 	for i := 1; i+1 < len(out); i++ {
 		if out[i+1] == ":" && (out[i-1] == "{" || out[i-1] == ",") && orig[i] != "" {
 			out[i] = orig[i]
+			if c, ok := fieldCanon[orig[i]]; ok {
+				out[i] = c
+			}
 		}
 	}
 	return strings.Join(out, " ")
@@ -137,7 +188,16 @@ func (p *pkgInfo) emitFacts(o *out) {
 
 	// lock discipline: every memoizer method touching data/maxLength/done starts with
 	// m.mu.Lock(); defer m.mu.Unlock()
-	shared := map[string]bool{"data": true, "maxLength": true, "done": true}
+	fieldCanon, shared := p.memoFields() // every field that is neither the mutex, a Cond nor the digit function
+	muName, iterName := "mu", "iter"
+	for n, c := range fieldCanon {
+		if c == "_mu" {
+			muName = n
+		}
+		if c == "_iter" {
+			iterName = n
+		}
+	}
 	var touching, unlocked []string
 	iterCallers := map[string]bool{}
 	goStmts := []string{}
@@ -159,7 +219,7 @@ func (p *pkgInfo) emitFacts(o *out) {
 					}
 				}
 			case *ast.CallExpr:
-				if s, ok := v.Fun.(*ast.SelectorExpr); ok && s.Sel.Name == "iter" {
+				if s, ok := v.Fun.(*ast.SelectorExpr); ok && s.Sel.Name == iterName {
 					if id, ok := s.X.(*ast.Ident); ok && isMemo && id.Name == recv {
 						iterCallers[k] = true
 					}
@@ -188,7 +248,7 @@ func (p *pkgInfo) emitFacts(o *out) {
 			if len(fd.Body.List) >= 2 {
 				a := p.src(fd.Body.List[0])
 				b := p.src(fd.Body.List[1])
-				if a == recv+".mu.Lock()" && b == "defer "+recv+".mu.Unlock()" {
+				if a == recv+"."+muName+".Lock()" && b == "defer "+recv+"."+muName+".Unlock()" {
 					ok = true
 				}
 			}
